@@ -18,7 +18,7 @@ REQUIRED_QUICK = [
     "origin_udp_app", "origin_udp_idle_gc", "origin_udp_stop", "origin_udp_unresolvable", "origin_udp_connect_fails",
     "tcp_observer_fires", "tcp_cleanup_fires", "udp_observer_fires", "udp_cleanup_fires",
     "tcp_gauge_samples_io_thread", "udp_gauge_samples_io_thread", "tcp_final_checks", "udp_final_checks",
-    "il_tcp_close_before_connect_return", "il_tcp_stop_with_open_sessions", "il_tcp_connect_during_stop_accepted",
+    "il_tcp_stop_with_open_sessions", "il_tcp_connect_during_stop_accepted",
     "tcp_unobserve_actor_true", "tcp_race_attempts_close_vs_timer",
 ]
 
